@@ -8,5 +8,7 @@ CONSTANTS
   FIX_LENGTH = TRUE
   SORT = "reverse"
   KnownDeviations = {}
+  MOUNT_SET = "all"
+  EMIT_MIN = 1
 INVARIANT Refines
 CHECK_DEADLOCK FALSE
